@@ -35,6 +35,8 @@ class HierarchyFilter(Filter):
         super(HierarchyFilter, self).__init__(rtdc_ds)
         self._parent_rtdc_ds = None
         self._parent_hash = None
+        #: root parent indices of the events `self.manual` refers to
+        self._root_ids = None
         self.update_parent(rtdc_ds.hparent)
 
     @property
@@ -105,8 +107,17 @@ class HierarchyFilter(Filter):
         thus index-mapping would not work.
         """
         if self.parent_changed:
-            # ignore
-            pass
+            # The parent changed, so the current index mapping does not
+            # apply to `self.manual` anymore. But we remember the events
+            # of the root parent that `self.manual` refers to, so manual
+            # exclusions made since the last update are not lost.
+            if (self._root_ids is not None
+                    and len(self._root_ids) == len(self.manual)
+                    and not np.all(self.manual)):
+                pbool = self._root_ids[~self.manual].tolist()
+                phid = list(set(self._man_root_ids)
+                            - set(self._root_ids.tolist()))
+                self._man_root_ids = sorted(set(pbool + phid))
         elif np.all(self.manual):
             # Do not do anything and remember the events we manually
             # excluded in case the parent reinserts them.
@@ -148,3 +159,13 @@ class HierarchyFilter(Filter):
         # (not to its filter, because that is reinstantiated)
         self._parent_rtdc_ds = parent_rtdc_ds
         self._parent_hash = self._get_parent_hash()
+        # remember the events of the root parent that this filter refers to
+        try:
+            pidx = np.where(parent_rtdc_ds.filter.all)[0]
+            if parent_rtdc_ds.format == "hierarchy":
+                pidx = map_indices_child2root(child=parent_rtdc_ds,
+                                              child_indices=pidx)
+            self._root_ids = pidx
+        except IndexError:
+            # The hierarchy above the parent is not up-to-date.
+            self._root_ids = None
